@@ -110,6 +110,7 @@ def register(reg):  # noqa: F811
     register_push(reg)
     register_connect(reg)
     register_connect2(reg)
+    register_output_info(reg)
 
 
 def install(ex):
@@ -520,3 +521,26 @@ def register_connect2(reg):
         loops={1: dict(invariant=inv_a, locals={"any_done": Bool}), 2: dict(invariant=inv_b, locals={"any_done": Int})},
         max_paths=3000,
     ))
+
+
+# =================================================================================================
+# Output.info (C06.2 / C07.2): the output's info is handed out only after every registered end consumer exchanged
+# =================================================================================================
+def register_output_info(reg):
+    OUTQ = "finam.sdk.output.Output"
+
+    def incomplete(ctx):
+        s = ctx.self
+        c0 = ctx.old
+        return Or(is_none(c0.get(s, "_output_info")),
+                  And(c0.get(s, "_targets").n > 0,
+                      c0.get(s, "_out_infos_exchanged").e < c0.get(s, "_connected_inputs").keys.n))
+
+    for cls in ("Output", "CallbackOutput"):
+        reg.add(Contract(
+            f"{OUTQ}.info", self_cls=cls, props=["C06.2", "C07.2", "C05.1"], params={}, result=TOpt(TRef("Info")), pure=True, modifies=lambda ctx: [],
+            raises={"FinamNoDataError": incomplete}, must_raise={"FinamNoDataError": incomplete}, raise_frame_empty=True,
+            ensures=lambda ctx, r: {"the stored info": sv.value_eq(r, ctx.get(ctx.self, "_output_info")),
+                                    "complete: every registered end consumer has exchanged (the condition push_data uses)": Not(incomplete(ctx))},
+            name=f"info<{cls}>", primary=False,
+        ))
